@@ -598,7 +598,7 @@ func (ex *Exec) assertObl(id string, c *Term, pos string) {
 	if ex.replaying() {
 		// already checked by the parent path before the fork point; keep the same path condition
 		if c.IsConst() && !c.B {
-			panic(&PathEnd{"assertion " + id + " is false on this path"})
+			return
 		}
 		ex.assume(c)
 		return
@@ -641,10 +641,10 @@ func (ex *Exec) assertObl(id string, c *Term, pos string) {
 	// continue under the assumption that the assertion holds
 	if r != Unsat {
 		if c.IsConst() && !c.B {
-			panic(&PathEnd{"assertion " + id + " is false on this path"})
+			return // fails on the whole path: recorded; keep executing so that later obligations are still decided
 		}
 		if s.CheckWith(c) == Unsat {
-			panic(&PathEnd{"assertion " + id + " fails on the whole path"})
+			return // fails for every input of this path: nothing to assume, keep going
 		}
 		ex.assume(c)
 	}
